@@ -291,8 +291,13 @@ async fn scenario(sim: Arc<Sim>, unit: Value) -> Obs {
             // with a cap, other peers' attempts may delay ours by whole attempt durations
             let allowance = if cap >= 3 { 0 } else { 12 * (CONNECT_TIMEOUT_US + period) };
             let bound = t + SLACK_US + allowance;
+            // (with a small cap and peers that fail for ever, the slots may go to those peers at
+            // every check — the statement gives no order among peers that may be dialed, so no
+            // time bound applies then; work conservation below is what is checked)
+            let contended = dead > 0 && cap < 3;
             match first_new_after(&tg.id, t_table) {
                 Some(tc) if tc <= bound => {}
+                _ if contended => {}
                 other => {
                     if bound < t_start + horizon_us {
                         viol!("not-connected-in-time", "{cfgs} {}: live address is #{live} in its rotation; expected a connection by {} us, got {:?}", tg.name, bound, other);
@@ -336,6 +341,7 @@ async fn scenario(sim: Arc<Sim>, unit: Value) -> Obs {
             }
             match first_new_after(&tg.id, u) {
                 Some(tc) if tc <= bound => {}
+                _ if dead > 0 && cap < 3 => {}
                 other => viol!("not-connected-in-time", "{cfgs} t0 became reachable at {} us after {k} consecutive failures; expected a connection by {} us (min(max,k*step) + 2 intervals + connect time), got {:?}", u, bound, other),
             }
         }
